@@ -43,8 +43,9 @@ class BddMachine(Machine):
                  with_ite=True, with_foa=True, with_reorder=True,
                  seeds=('fresh', 'used', 'swapped'), with_refops=True,
                  with_collect=True, with_swap=True, with_let=False, with_quant=False,
-                 with_sort=False, with_twin=False):
+                 with_sort=False, with_twin=False, with_spare=False):
         self.with_twin = with_twin
+        self.with_spare = with_spare
         self.names = tuple(names)
         self.U = Universe(self.names)
         self.max_handles = max_handles
@@ -65,7 +66,16 @@ class BddMachine(Machine):
     def seed_labels(self):
         return list(self._seeds)
 
+    SPARE = '_spare'
+
     def seed(self, label):
+        st = self._seed(label)
+        if self.with_spare:
+            # a declared, never used variable below the others: `undeclare` removes it
+            st.m.add_var(self.SPARE)
+        return st
+
+    def _seed(self, label):
         U = self.U
         m = S.new_bdd({n: i for i, n in enumerate(self.names)})
         st = St(m, [])
@@ -199,6 +209,8 @@ class BddMachine(Machine):
                             acts.append(('twin', op, i, j))
             if not nh:
                 acts.append(('twin', 'vars', 0, 0))
+        if self.with_spare and self.SPARE in m.vars:
+            acts.append(('undeclare',))
         if self.with_collect:
             acts.append(('collect',))
             for i in idx:
@@ -295,6 +307,10 @@ class BddMachine(Machine):
                                 got=U.fmt(den(r)), want=U.fmt(want))
             if a[-1] != 'drop':
                 self._hold(st, r, want)
+        elif kind == 'undeclare':
+            m.undeclare_vars(self.SPARE)
+            if self.SPARE in m.vars or set(m.vars) != set(self.names):
+                raise Violation('undeclare_vars did not remove exactly the named variable')
         elif kind == 'incref':
             m.incref(h[a[1]][0])
             h[a[1]][1] += 1
